@@ -126,6 +126,9 @@ fn required_ambiguity_resolution(game: &Game, mv: Move) -> AmbiguityResolution {
         .any(|m| m.src().rank() == mv.src().rank());
 
     match (ambiguity_by_file, ambiguity_by_rank) {
+        // Another piece of the same kind can reach the square from a different file and a
+        // different rank: the file is enough to tell them apart
+        (false, false) if !potentially_ambiguous_moves.is_empty() => AmbiguityResolution::File,
         (false, false) => AmbiguityResolution::None,
         (true, false) => AmbiguityResolution::Rank,
         (false, true) => AmbiguityResolution::File,
